@@ -352,6 +352,60 @@ def main(ck: Check):
         srng.shuffle(twos)
         hard = hard[: n_corr_per_gear // 2]
         corr_cases += [c[:4] for c in ones + hard + twos[: n_corr_per_gear - len(hard)]]
+    # ---- one calculator answering a SEQUENCE of items: an answer may neither depend on the requests made before
+    #      (compared with a fresh calculator) nor be changed by the requests made after it (re-read at the end)
+    by_level: dict[int, dict[bool, list[int]]] = {}
+    for gid in sorted(int(i) for i in repo._bare_gears):
+        m = repo.get_gear_meta(gid)
+        by_level.setdefault(m.req_level, {}).setdefault(bool(m.boss_reward), []).append(gid)
+    both = sorted(lv for lv, d in by_level.items() if True in d and False in d and lv >= 100)
+    hrng = random.Random(f"C18:{ck.seed}:history")
+    hrng.shuffle(both)
+    sequences = history_answers = 0
+    t_hist = time.time()
+    for lv in both[: (2 if quick else 8)]:
+        gb = repo.get_by_id(hrng.choice(by_level[lv][True]))
+        gn = repo.get_by_id(hrng.choice(by_level[lv][False]))
+        for order in ((gb, gn, gb), (gn, gb, gn)):
+            shared = Real()
+            kept = []
+            sequences += 1
+            for gear in order:
+                gs = valid_grades(gear.meta)
+                low = [g for g in gs if g <= 2] or gs
+                stat_kinds = [BonusType(t.value) for t in _stat_types]
+                optsets = [[(hrng.choice(stat_kinds), hrng.choice(low))],
+                           [(k, hrng.choice(low if i % 2 == 0 else gs)) for i, k in enumerate(hrng.sample(stat_kinds, 2))],
+                           [(k, hrng.choice(gs)) for k in hrng.sample(KINDS, 3)]]
+                for opts in optsets:
+                    if time.time() - t_hist > (12 if quick else 90):
+                        break
+                    try:
+                        stat = real.observed(gear.meta, opts)
+                    except ValueError:
+                        continue
+                    if not integral(stat) or not only_obs_fields(stat):
+                        continue
+                    ans, res = shared.compute(stat, gear)
+                    want, _ = Real().compute(stat, gear)
+                    evaluations += 1
+                    history_answers += 1
+                    gname = f"{gear.meta.name} (id {gear.meta.id}, lv {gear.meta.req_level}, boss={gear.meta.boss_reward})"
+                    if ans != want and len(ck.failing) < 40:
+                        ck.add_failing({"what": "the answer depends on the items the same calculator was asked about before",
+                                        "gear": gname, "gear_id": gear.meta.id, "options": [[k.value, g] for k, g in opts],
+                                        "observed": stat.short_dict(), "reused_calculator": ans, "fresh_calculator": want,
+                                        "asked_before": [k[0] for k in kept]})
+                    kept.append((gname, gear, stat, ans, res, [[k.value, g] for k, g in opts]))
+            for gname, gear, stat, ans, res, opts in kept:
+                if res is None:
+                    continue
+                now = [[kind_of(b), str(b.grade)] for b in res]
+                bad = soundness_defects(real, gear, stat, res)
+                if (now != ans[1] or bad) and len(ck.failing) < 40:
+                    ck.add_failing({"what": "an answer returned earlier was changed by later requests to the same calculator",
+                                    "gear": gname, "gear_id": gear.meta.id, "options": opts, "observed": stat.short_dict(),
+                                    "returned_then": ans[1], "same_list_now": now, "defects_now": bad})
     t_direct = time.time() - t_direct
 
     # ------------------------------------------------------------------ proofs (Lean lock held from here)
@@ -446,6 +500,8 @@ def main(ck: Check):
 
     ck.coverage.update({
         "evaluations": evaluations + len(reqs),
+        "history_sequences": sequences,
+        "history_answers_compared_with_a_fresh_calculator": history_answers,
         "distinct_nontrivial": len(distinct),
         "rule": "gears: one seeded gear per (level band, boss reward, weapon class) cell of the gear repository in "
                 "a fixed cell order (quick 2, thorough 12); per gear every 1-kind and 2-kind option set over all "
